@@ -5,3 +5,4 @@ pub mod stallguard;
 pub mod weakfilter;
 pub mod registration;
 pub mod linkcc;
+pub mod shellsim;
